@@ -69,7 +69,10 @@ def handle (args : List String) : String :=
     match parseInput spec with
     | none => "bad-input"
     | some bs =>
-      let s := if kind.startsWith "u" then DecSt.unreadable else DecSt.ofBytes bs
+      -- u: stream never opened; m: open of a missing file failed (failbit); e: stream already read to its end (eofbit|failbit)
+      let s := if kind.startsWith "u" || kind.startsWith "m" then DecSt.unreadable
+               else if kind.startsWith "e" then { win := [], inp := { data := [], eof := true, good := false } }
+               else DecSt.ofBytes bs
       let fuel := 3 * bs.length + 2
       let rs := runOps fuel (kind.endsWith "+") (ops.splitOn ",") s []
       "M " ++ joinWith ";" rs
